@@ -232,11 +232,14 @@ pub fn gen_history(r: &mut Rng, g: &GenCfg) -> History {
     if nc >= 2 && r.chance(g.cross_prefix_pct, 100) {
         // B builds a chain and snapshots its latest; A then starts ITS chain on B's latest id and snapshots at that base
         let (a, b) = (0usize, 1usize);
-        for _ in 0..1 + r.below(3) {
+        for _ in 0..2 + r.below(3) {
             ops.push(AOp::Av { ci: b, p: IdRef::Latest, payload: PayloadSpec::small(r), cuts: r.next() });
         }
         ops.push(AOp::As { ci: b, v: IdRef::Latest, payload: PayloadSpec::small(r), cuts: r.next() });
         ops.push(AOp::Av { ci: a, p: IdRef::ForeignLatest(0, r.uuid()), payload: PayloadSpec::small(r), cuts: r.next() });
+        // first at the version BEFORE that base in B's chain (within the window, if the walk back from A's latest did not
+        // stop at the end of A's own chain), then at the base itself
+        ops.push(AOp::As { ci: a, v: IdRef::ForeignAnc(0, 1, r.uuid()), payload: PayloadSpec::small(r), cuts: r.next() });
         ops.push(AOp::As { ci: a, v: IdRef::Base(r.uuid()), payload: PayloadSpec::small(r), cuts: r.next() });
         ops.push(AOp::Gs { ci: b });
         ops.push(AOp::Gs { ci: a });
